@@ -55,6 +55,27 @@ def _all_cases(C, tier, seed):
         out.append(('decls', 'C10 range declared-functions-scanned:%d | 1' % res['declared']))
     except Exception as e:   # clang missing / AST not parseable: the tie is broken, say so
         out.append(('decls', 'C10 inst decl-scan-failed:%s | 1' % type(e).__name__))
+    # public-API coverage (tools/api_coverage.py): every public function declared under include/AIToolbox (clang AST; class templates
+    # through their members) must be referenced by some harness object (nm of harness/c*.cpp compiled -O0) or be accounted for, with a
+    # reason, in tools/props/c10_api_accounted.py; a function defined in a header without `inline` breaks every two-unit program
+    try:
+        import api_coverage
+        res = api_coverage.coverage()
+        acc, unacc = api_coverage.accounted_for(res)[:2]
+        for d in unacc:
+            name = d['sig'].replace(' ', '')
+            out.append(('api:' + name, 'C10 api %s | 0' % name))
+        for h in res.get('harness_failed', {}) or {}:
+            out.append(('api:harness:' + str(h), 'C10 api harness-object-does-not-compile:%s | 0' % os.path.basename(str(h))))
+        for ent in res.get('noninline_header_definitions', []):
+            fn, _, where = ent.partition('  [')
+            hdr = os.path.basename(where.split(':')[0]) if where else 'unknown'
+            out.append(('odr:' + fn.replace(' ', ''), 'C10 odr %s %s | 1' % (hdr, fn.replace(' ', ''))))
+        out.append(('apicov', 'C10 range public-api-scanned:%d:referenced:%d:accounted:%d | 1' % (res['public'], res['covered'], len(acc))))
+    except Exception as e:
+        out.append(('apicov', 'C10 api coverage-scan-failed:%s | 0' % type(e).__name__))
+    if os.environ.get('C10_ONLY_OWN'):      # mutation trials (tools/dev/mutations_c10.py): the other properties' harnesses are not rebuilt and run
+        return out
     limit = 150 if tier == 'thorough' else 25
     here = os.path.dirname(os.path.abspath(__file__))
     for f in sorted(glob.glob(os.path.join(here, 'c[0-9][0-9].py'))):
@@ -77,13 +98,37 @@ def _all_cases(C, tier, seed):
     return out
 
 
+def _api_rev():
+    # harness/c10.cpp includes harness/c10_api_*.hpp (the public-API sweep, one file per library area); the harness cache key only
+    # covers the main source and harness/common/*, so a hash of the included files goes into the compile flags
+    import glob, hashlib
+    h = hashlib.sha256()
+    for f in sorted(glob.glob(os.path.join(os.path.dirname(os.path.dirname(os.path.dirname(os.path.abspath(__file__)))), 'harness', 'c10_api_*.hpp'))):
+        h.update(open(f, 'rb').read())
+    return '-DC10_API_REV=0x' + h.hexdigest()[:8]
+
+
 SPEC = {
     'id': 'C10',
+    'harness_flags': (_api_rev(),),
     # C10(b): besides its own cursor model (match) C10 re-audits the in-bounds / totality theorems that the other properties
     # proved about the manual index and iterator cores named in C10's anchors (they live with the property that models the core)
-    'lean_modules': ['AITB.Props.C10', 'AITB.Props.C20', 'AITB.Props.C11Traces', 'AITB.Props.C12Interp', 'AITB.Props.C12InterpValue', 'AITB.Props.C12Prune', 'AITB.Props.C12PruneStrong', 'AITB.Props.C08Dense',
+    'lean_modules': ['AITB.Props.C10', 'AITB.Props.C10Util', 'AITB.Props.C10Choose', 'AITB.Props.C10Sites', 'AITB.Props.C10FG', 'AITB.Props.C10Naive', 'AITB.Props.C10Union', 'AITB.Props.C10BG', 'AITB.Props.C10Contains', 'AITB.Props.C20', 'AITB.Props.C11Traces', 'AITB.Props.C12Interp', 'AITB.Props.C12InterpValue', 'AITB.Props.C12Prune', 'AITB.Props.C12PruneStrong', 'AITB.Props.C08Dense',
                      'AITB.Props.C08', 'AITB.Props.C08Vose', 'AITB.Props.C18', 'AITB.Props.C14', 'AITB.Props.C14c', 'AITB.Props.C19', 'AITB.Props.C17', 'AITB.Props.C20h', 'AITB.Props.C06', 'AITB.Props.C06Factored', 'AITB.Props.C08Models', 'AITB.Props.C04', 'AITB.Props.C09a'],
-    'theorems': ['AITB.Cursor.matchLoop_total', 'AITB.Cursor.match_no_oob', 'AITB.Cursor.matchOrig_oob_witness', 'AITB.Cursor.uses_subset_provides',
+    'theorems': [# round 4: shared index helpers one level below the anchored code
+                 'AITB.CursorUtil.advance_spec', 'AITB.CursorUtil.advance_total', 'AITB.CursorUtil.advance_empty_oob', 'AITB.CursorUtil.advance_lowest',
+                 'AITB.CursorUtil.advance_keeps_sorted', 'AITB.CursorUtil.advance_is_successor', 'AITB.CursorUtil.advance_stops_only_at_last',
+                 'AITB.CursorUtil.reset_least', 'AITB.CursorUtil.reset_valid', 'AITB.CursorUtil.nChooseK_eq_choose',
+                 'AITB.CursorUtil.setUnion_no_realloc', 'AITB.CursorUtil.setUnion_underreserve_witness', 'AITB.CursorUtil.setUnion_as_written_safe',
+                 'AITB.CursorUtil.unionReserve_sufficient', 'AITB.CursorUtil.c10_sites_as_modelled',
+                 'AITB.CursorUtil.veccmp_no_oob', 'AITB.CursorUtil.veccmp_oob_witness', 'AITB.CursorUtil.sortedContains_no_oob',
+                 'AITB.FGCursor.recPush_spec', 'AITB.FGCursor.nbLoop_eq_rec', 'AITB.FGCursor.mergeNeighbours_spec', 'AITB.FGCursor.addFactor_keeps_inv',
+                 'AITB.FGCursor.eraseVar_keeps_inv', 'AITB.FGCursor.fg_history_safe', 'AITB.FGCursor.eraseVar_asymmetric_witness',
+                 'AITB.CursorUtil.naive_rows_first', 'AITB.CursorUtil.naive_row_cache_correct', 'AITB.CursorUtil.naive_stale_row_witness', 'AITB.CursorUtil.naive_index_in_range',
+                 'AITB.CursorUtil.setDiffLoop_eq_rec', 'AITB.CursorUtil.setUnion_is_sorted_union',
+                 'AITB.CursorUtil.containsLoop_eq_rec', 'AITB.CursorUtil.recContains_spec', 'AITB.CursorUtil.containsScan_decides_inclusion',
+                 'AITB.BGCursor.selectStep_total', 'AITB.BGCursor.selectLoop_total', 'AITB.BGCursor.selectLoop_overrun_witness', 'AITB.BGCursor.selection_misaligns_distances',
+                 'AITB.Cursor.matchLoop_total', 'AITB.Cursor.match_no_oob', 'AITB.Cursor.matchOrig_oob_witness', 'AITB.Cursor.uses_subset_provides',
                  'AITB.Trie.trie_cursor_refines_spec', 'AITB.Trie.applyCursor_eq',                      # Trie::applyFilters k-way cursor loop, getAllIds/size/erase
                  'AITB.Learn.updateTraces_spec', 'AITB.Learn.updateTraces_nodup',                        # swap-and-pop trace loops (OffPolicyBase, SARSAL)
                  'AITB.Interp.sawtooth_repaired_total', 'AITB.Interp.sawtooth_defined_of_nonempty',      # sawtoothInterpolation never reads out of range / uninitialised
@@ -105,6 +150,10 @@ SPEC = {
     'timeout': {'quick': 600, 'thorough': 3000},
     'rule': 'one case per instantiation unit (class template x library type satisfying its concept, member templates via odr-use) plus exhaustive pairs of partial assignments '
             'over all small factor spaces for the two-cursor cores; non-trivial = both operands non-empty / any instantiation unit',
-    'modelled': ['Factored::match two-cursor scan (checked-access cursor model)'],
+    'modelled': ['Factored::match two-cursor scan (checked-access cursor model)',
+                 'SubsetEnumerator::advance/isValid/reset, nChooseK, findVerticesNaive row cache (AITB.Model.CursorUtil)',
+                 'set_union_inplace (set_difference into back_inserter with live cursors + inplace_merge), sequential_sorted_contains/find, veccmp (AITB.Model.CursorUtil)',
+                 'FactorGraph::getFactor neighbour index loop and erase find-then-erase, over histories (AITB.Model.FGCursor)',
+                 'BeliefGenerator::expandBeliefList selection loop with its double swap (AITB.Model.BGCursor)'],
     'assumptions': ['g++ -fsyntax-only is the judge of instantiability', 'uninitialised reads are only visible where the poisoned heap changes an output (no MSan offline)'],
 }
